@@ -4,7 +4,7 @@ From Coq Require Import String Ascii ZArith List Bool Arith.
 From RV Require Import Base.Val Base.PyStr Gen.ParserV2 Model.Fit Proofs.C10Main.
 Import ListNotations.
 
-Lemma C10_pin_limits : max_pdb_serial = 99999%Z /\ max_pdb_residue = 9999%Z /\ length chain_alphabet = 62.
+Lemma C10_pin_limits : max_pdb_serial = 99999%Z /\ max_pdb_residue = 9999%Z /\ length chain_alphabet = 62 /\ pdb_limits_as_modelled = true.
 Proof. repeat split; reflexivity. Qed.
 Print Assumptions C10_pin_limits.
 
